@@ -32,7 +32,7 @@ ANCHORS = ["dagrt.language:AssignBase.get_read_variables", "dagrt.language:Assig
            "dagrt.language:AssignFunctionCall.get_read_variables", "dagrt.language:YieldState.get_read_variables",
            "dagrt.language:ConditionalStatementBase.get_read_variables",
            "dagrt.exec_numpy:NumpyInterpreter.exec_Assign"]
-MIN_NONTRIVIAL = {"quick": 12000, "thorough": 150000}
+MIN_NONTRIVIAL = {"quick": 12000, "thorough": 840000}
 REQUIRED_COUNTERS = {"quick": ["statement_executions_checked", "reads_checked", "writes_checked",
                                "identity_mappings_checked", "handbuilt_statements"],
                      "thorough": ["statement_executions_checked", "reads_checked", "writes_checked",
@@ -41,9 +41,9 @@ SHARD_TIMEOUT = {"quick": 900, "thorough": 3400}
 
 
 def plan(tier, seed):
-    per = 200 if tier == "quick" else 2500
+    per = 200 if tier == "quick" else 20000
     sh = [{"kind": "prog", "seed": f"C08:{seed}:{k}", "count": per} for k in range(12)]
-    per2 = 1000 if tier == "quick" else 15000
+    per2 = 1000 if tier == "quick" else 120000
     sh += [{"kind": "single", "seed": f"C08:{seed}:s{k}", "count": per2} for k in range(4)]
     return sh
 
@@ -214,8 +214,23 @@ def single_state(rng):
 def gen_single(rng):
     from dagrt.language import (Assign, AssignFunctionCall, AssignImplicit, FailStep, Raise, SwitchPhase,
                                 YieldState)
-    from pymbolic import var
-    from pymbolic.primitives import LogicalAnd, LogicalNot
+    from pymbolic import var as _var
+    from pymbolic.primitives import LogicalAnd, LogicalNot, Lookup, Variable
+    from pymbolic.mapper.substitutor import SubstitutionMapper
+    # attribute lookups ('y.real', as the parser produces and the interpreter evaluates with getattr): in some
+    # statements every occurrence of a few chosen variables is read through '.real'
+    chosen = set()
+    if rng.random() < 0.25:
+        chosen = set(rng.sample(["x", "y", "<state>s", "<p>k", "n", "j0", "only_in_bound", "only_in_sub",
+                                 "only_in_guard", "only_in_time", "<cond>g"], rng.choice([1, 2, 4])))
+    _sm = SubstitutionMapper(lambda v: Lookup(v, "real") if isinstance(v, Variable) and v.name in chosen else None)
+
+    def to_pym(e, _orig=globals()["to_pym"]):
+        r = _orig(e)
+        return _sm(r) if chosen else r
+
+    def var(n):
+        return Lookup(_var(n), "real") if n in chosen else _var(n)
     kind = rng.choice(["assign", "assign", "elem", "loop", "loop2", "call", "yield", "fail", "switch", "raise",
                        "implicit"])
     g = rng.random()
